@@ -748,28 +748,23 @@ Section SimplifySound.
       end.
   Ltac incl_solve :=
     solve [ repeat first [ assumption | apply incl_refl | eapply incl_tran; [eassumption|] ] ].
-  (** [rw h' a b] from some [rw h a b] in the context with [h] included in [h'] *)
+  (** [rw h' a _] from some [rw h a b] in the context with [h] included in [h'] *)
   Ltac lift :=
     match goal with
-    | H : rw ?h ?a ?b |- rw ?h' ?a ?b => eapply rw_mono; [| exact H]; incl_solve
+    | H : rw ?h ?a _ |- rw ?h' ?a _ => eapply rw_mono; [| exact H]; incl_solve
     end.
+  (** one parallel step: replace every subterm that is the source of a known [rw] fact *)
   Ltac cong :=
-    repeat first [ lift | apply rw_refl
-                 | apply rw_infix | apply rw_prefix | apply rw_fn ].
+    repeat first [ lift | apply rw_infix | apply rw_prefix | apply rw_fn | apply rw_refl ].
+  Ltac fwd := eapply rw_trans; [ solve [cong] | ].
   Ltac fin3 := repeat split; [ | assumption | incl_solve ].
 
   Lemma R_affine_full : rule_ok (r_affine_full C ceqb).
   Proof.
     unfold r_affine_full, e_add, e_mul. rule_start; use_recs Hrec; fin3.
-    - eapply rw_trans; [apply A_affine_1 |].
-      eapply rw_trans; [| lift]. eapply rw_trans; [| apply rw_infix; [lift | apply rw_refl]].
-      cong.
-    - eapply rw_trans; [apply A_affine_2 |].
-      eapply rw_trans; [| lift]. eapply rw_trans; [| apply rw_infix; [lift | apply rw_refl]].
-      cong.
-    - eapply rw_trans; [apply A_affine_3 |].
-      eapply rw_trans; [| lift]. eapply rw_trans; [| apply rw_infix; [lift | apply rw_refl]].
-      cong.
+    - eapply rw_trans; [apply A_affine_1 |]. do 3 fwd. apply rw_refl.
+    - eapply rw_trans; [apply A_affine_2 |]. do 3 fwd. apply rw_refl.
+    - eapply rw_trans; [apply A_affine_3 |]. do 3 fwd. apply rw_refl.
     - cbn [mul_matches] in *.
       repeat match goal with
         | H : Simplify.eqb _ _ ?a ?b = false, H' : context [Simplify.eqb _ _ ?a ?b] |- _ =>
@@ -777,8 +772,506 @@ Section SimplifySound.
         end.
       cbn [orb] in *.
       match goal with H : Simplify.eqb _ _ _ _ = true |- _ => apply eqb_sound in H; subst end.
-      eapply rw_trans; [apply A_affine_4 |].
-      eapply rw_trans; [| lift]. eapply rw_trans; [| apply rw_infix; [lift | apply rw_refl]].
-      cong.
+      eapply rw_trans; [apply A_affine_4 |]. do 3 fwd. apply rw_refl.
+  Qed.
+  Lemma R_affine_coeffs : rule_ok (r_affine_coeffs C ceqb).
+  Proof.
+    unfold r_affine_coeffs, e_add, e_mul. rule_start; use_recs Hrec; fin3.
+    eapply rw_trans; [apply A_affine_coeffs |]. do 2 fwd. apply rw_refl.
+  Qed.
+  Lemma R_affine_consts : rule_ok (r_affine_consts C ctwo ceqb).
+  Proof.
+    unfold r_affine_consts, e_add, e_mul. rule_start; use_recs Hrec; fin3.
+    eapply rw_trans; [apply A_affine_consts |]. do 2 fwd. apply rw_refl.
+  Qed.
+
+  Ltac smaller_fin := apply rw_smaller; [apply rw_refl |].
+
+  Lemma R_assoc_r : rule_ok (r_assoc_r C).
+  Proof.
+    unfold r_assoc_r. rule_start; use_recs Hrec; fin3; smaller_fin.
+    - eapply rw_trans; [apply A_assoc_r_add |]. do 2 fwd. apply rw_refl.
+    - eapply rw_trans; [apply A_assoc_r_mul |]. do 2 fwd. apply rw_refl.
+  Qed.
+  Lemma R_unassoc_r : rule_ok (r_unassoc_r C).
+  Proof.
+    unfold r_unassoc_r, inverse_op. rule_start; use_recs Hrec; fin3; smaller_fin.
+    - eapply rw_trans; [apply A_unassoc_r_sub |]. do 2 fwd. apply rw_refl.
+    - eapply rw_trans; [apply A_unassoc_r_div |]. do 2 fwd. apply rw_refl.
+  Qed.
+  Lemma R_assoc_l : rule_ok (r_assoc_l C).
+  Proof.
+    unfold r_assoc_l, inverse_op. rule_start; use_recs Hrec; fin3; smaller_fin.
+    - eapply rw_trans; [apply A_assoc_l_add |]. do 2 fwd. apply rw_refl.
+    - eapply rw_trans; [apply A_assoc_l_sub |]. do 2 fwd. apply rw_refl.
+    - eapply rw_trans; [apply A_assoc_l_div |]. do 2 fwd. apply rw_refl.
+    - eapply rw_trans; [apply A_assoc_l_mul |]. do 2 fwd. apply rw_refl.
+  Qed.
+  Lemma R_distrib_r : rule_ok (r_distrib_r C).
+  Proof.
+    unfold r_distrib_r, e_add, e_mul. rule_start; use_recs Hrec; fin3; smaller_fin.
+    eapply rw_trans; [apply A_distrib_r |]. do 2 fwd. apply rw_refl.
+  Qed.
+  Lemma R_distrib_l : rule_ok (r_distrib_l C).
+  Proof.
+    unfold r_distrib_l, e_add, e_mul. rule_start; use_recs Hrec; fin3; smaller_fin.
+    eapply rw_trans; [apply A_distrib_l |]. do 2 fwd. apply rw_refl.
+  Qed.
+
+  Lemma R_mul_div_cancel_l : rule_ok (r_mul_div_cancel_l C ceqb).
+  Proof. unfold r_mul_div_cancel_l. rule_start; rule_same. Qed.
+  Lemma R_div_mul_cancel_r : rule_ok (r_div_mul_cancel_r C c1 ceqb).
+  Proof.
+    unfold r_div_mul_cancel_r, e_div. rule_start; use_recs Hrec; fin3.
+    - eapply rw_trans; [apply A_div_mul_cancel_r1 |]. fwd. apply rw_refl.
+    - eapply rw_trans; [apply A_div_mul_cancel_r2 |]. fwd. apply rw_refl.
+  Qed.
+  Lemma R_mul_in_div_l : rule_ok (r_mul_in_div_l C).
+  Proof.
+    unfold r_mul_in_div_l, e_div, e_mul. rule_start; use_recs Hrec; fin3; smaller_fin.
+    eapply rw_trans; [apply A_mul_in_div_l |]. do 2 fwd. apply rw_refl.
+  Qed.
+  Lemma R_mul_in_div_r : rule_ok (r_mul_in_div_r C).
+  Proof.
+    unfold r_mul_in_div_r, e_div, e_mul. rule_start; use_recs Hrec; fin3; smaller_fin.
+    eapply rw_trans; [apply A_mul_in_div_r |]. do 2 fwd. apply rw_refl.
+  Qed.
+  Lemma R_div_mul_cancel_l : rule_ok (r_div_mul_cancel_l C ceqb).
+  Proof. unfold r_div_mul_cancel_l. rule_start; rule_same. Qed.
+  Lemma R_mul_div_cancel_r : rule_ok (r_mul_div_cancel_r C ceqb).
+  Proof. unfold r_mul_div_cancel_r. rule_start; rule_same. Qed.
+
+  Notation infix_rules := (Simplify.infix_rules C c0 c1 ctwo cnan copp cop is_zero is_one ceqb).
+
+  Lemma infix_rules_ok : Forall rule_ok infix_rules.
+  Proof.
+    unfold Simplify.infix_rules.
+    repeat (apply Forall_cons; [first
+      [ exact R_add_zero_l | exact R_add_zero_r | exact R_sub_zero_l | exact R_sub_zero_r
+      | exact R_sub_self | exact R_mul_zero | exact R_mul_one_l | exact R_mul_one_r
+      | exact R_div_zero_l | exact R_div_zero_r | exact R_div_one_r | exact R_div_self
+      | exact R_pow_zero_l | exact R_pow_zero_r | exact R_pow_one_l | exact R_pow_one_r
+      | exact R_fold | exact R_add_neg_r | exact R_add_neg_l | exact R_sub_neg_r
+      | exact R_sub_neg_l | exact R_muldiv_neg_neg | exact R_div_neg_self_r
+      | exact R_div_neg_self_l | exact R_muldiv_neg_r | exact R_muldiv_neg_l
+      | exact R_affine_full | exact R_affine_coeffs | exact R_affine_consts
+      | exact R_assoc_r | exact R_unassoc_r | exact R_assoc_l | exact R_distrib_r
+      | exact R_distrib_l | exact R_mul_div_cancel_l | exact R_div_mul_cancel_r
+      | exact R_mul_in_div_l | exact R_mul_in_div_r | exact R_div_mul_cancel_l
+      | exact R_mul_div_cancel_r ] |]).
+    apply Forall_nil.
+  Qed.
+
+  Lemma first_rule_ok :
+    forall rules, Forall rule_ok rules ->
+    forall rec s l o r res s', simp_ok rec ->
+      first_rule C rules rec s l o r = (res, s') -> cache_ok s ->
+      rw (hits s') (Infix l o r) res /\ cache_ok s' /\ incl (hits s) (hits s').
+  Proof.
+    induction 1 as [|R rules HR Hrules IH]; intros rec s l o r res s' Hrec H Hc; cbn [first_rule] in H.
+    - injection H as <- <-. apply fin_same; [assumption | apply rw_refl].
+    - destruct (R rec s l o r) as [[res0 s0]|] eqn:E.
+      + injection H as <- <-. eapply HR; eassumption.
+      + eapply IH; eassumption.
+  Qed.
+
+  Lemma simplify_infix_ok rec0 rec1 :
+    simp_ok rec0 -> simp_ok rec1 ->
+    forall s l o r res s',
+      Simplify.simplify_infix C c0 c1 ctwo cnan copp cop is_zero is_one ceqb rec0 rec1 s l o r = (res, s') ->
+      cache_ok s ->
+      rw (hits s') (Infix l o r) res /\ cache_ok s' /\ incl (hits s) (hits s').
+  Proof.
+    intros H0 H1 s l o r res s' H Hc. unfold Simplify.simplify_infix in H.
+    destruct (rec0 s l) as [l' s1] eqn:E1. destruct (rec0 s1 r) as [r' s2] eqn:E2.
+    destruct (H0 _ _ _ _ E1 Hc) as (Hr1 & Hc1 & Hi1).
+    destruct (H0 _ _ _ _ E2 Hc1) as (Hr2 & Hc2 & Hi2).
+    destruct (first_rule_ok _ infix_rules_ok _ _ _ _ _ _ _ H1 H Hc2) as (Hr3 & Hc3 & Hi3).
+    fin3. fwd. lift.
+  Qed.
+
+  Lemma simplify_function_call_ok rec0 :
+    simp_ok rec0 ->
+    forall s f a res s',
+      Simplify.simplify_function_call C cfun rec0 s f a = (res, s') -> cache_ok s ->
+      rw (hits s') (Fn f a) res /\ cache_ok s' /\ incl (hits s) (hits s').
+  Proof.
+    intros H0 s f a res s' H Hc. unfold Simplify.simplify_function_call in H.
+    destruct (rec0 s a) as [a' s1] eqn:E1.
+    destruct (H0 _ _ _ _ E1 Hc) as (Hr1 & Hc1 & Hi1).
+    destruct a'; injection H as <- <-; fin3;
+      try (apply rw_fn; assumption).
+    eapply rw_trans; [apply rw_fn; eassumption | apply A_fn_fold].
+  Qed.
+
+  Lemma simplify_prefix_ok rec0 :
+    simp_ok rec0 ->
+    forall s o a res s',
+      Simplify.simplify_prefix C copp rec0 s o a = (res, s') -> cache_ok s ->
+      rw (hits s') (Prefix o a) res /\ cache_ok s' /\ incl (hits s) (hits s').
+  Proof.
+    intros H0 s o a res s' H Hc. unfold Simplify.simplify_prefix, e_neg in H.
+    destruct (rec0 s a) as [a' s1] eqn:E1.
+    destruct (H0 _ _ _ _ E1 Hc) as (Hr1 & Hc1 & Hi1).
+    destruct o.
+    - injection H as <- <-. fin3.
+      eapply rw_trans; [apply rw_prefix; eassumption | apply A_pos].
+    - destruct a' as [c | | x | n i | f a' | [|] a' | l' o' r'];
+        injection H as <- <-; fin3; try (apply rw_prefix; assumption).
+      + eapply rw_trans; [apply rw_prefix; eassumption | apply A_neg_num].
+      + eapply rw_trans; [apply rw_prefix; eassumption | apply A_neg_neg].
+  Qed.
+
+  Lemma with_cache_ok body : simp_ok body -> simp_ok (Simplify.with_cache C ceqb body).
+  Proof.
+    intros Hb s e r s' H Hc. unfold Simplify.with_cache in H.
+    destruct (Simplify.lookup C ceqb (cache s) e) as [r0|] eqn:El.
+    - injection H as <- <-. apply fin_same; [assumption |]. apply Hc, lookup_sound, El.
+    - destruct (body s e) as [r1 s1] eqn:Eb. injection H as <- <-.
+      destruct (Hb _ _ _ _ Eb Hc) as (Hr & Hc1 & Hi). cbn [cache hits].
+      repeat split; [exact Hr | | exact Hi].
+      intros k v Hin. cbn [cache hits] in *. destruct Hin as [Hin|Hin].
+      + injection Hin as <- <-. exact Hr.
+      + apply Hc1. exact Hin.
+  Qed.
+
+  Lemma body_zero_ok : simp_ok (Simplify.body_zero C cpi).
+  Proof.
+    intros s e r s' H Hc. unfold Simplify.body_zero in H.
+    destruct e; injection H as <- <-; apply fin_same; try assumption; try apply rw_refl. apply A_pi.
+  Qed.
+
+  Lemma body_pos_ok rec0 rec1 :
+    simp_ok rec0 -> simp_ok rec1 ->
+    simp_ok (Simplify.body_pos C c0 c1 ctwo cpi cnan copp cfun cop is_zero is_one ceqb rec0 rec1).
+  Proof.
+    intros H0 H1 s e r s' H Hc. unfold Simplify.body_pos in H.
+    destruct e.
+    - injection H as <- <-. apply fin_same; [assumption | apply rw_refl].
+    - injection H as <- <-. apply fin_same; [assumption | apply A_pi].
+    - injection H as <- <-. apply fin_same; [assumption | apply rw_refl].
+    - injection H as <- <-. apply fin_same; [assumption | apply rw_refl].
+    - eapply (simplify_function_call_ok rec0 H0); eassumption.
+    - eapply (simplify_prefix_ok rec0 H0); eassumption.
+    - eapply simplify_infix_ok; [exact H0 | exact H1 | exact H | exact Hc].
+  Qed.
+
+  Lemma simplify_ok_pair : forall n, simp_ok (simplify n) /\ simp_ok (simplify (S n)).
+  Proof.
+    induction n as [|n [IH0 IH1]].
+    - assert (H0 : simp_ok (simplify 0)) by (apply with_cache_ok, body_zero_ok).
+      split; [exact H0 |]. cbn [Simplify.simplify]. apply with_cache_ok, body_pos_ok; exact H0.
+    - split; [exact IH1 |].
+      change (simp_ok (Simplify.with_cache C ceqb
+                (Simplify.body_pos C c0 c1 ctwo cpi cnan copp cfun cop is_zero is_one ceqb
+                   (simplify (S n)) (simplify n)))).
+      apply with_cache_ok, body_pos_ok; assumption.
+  Qed.
+
+  Lemma simplify_ok : forall n, simp_ok (simplify n).
+  Proof. intro n. exact (proj1 (simplify_ok_pair n)). Qed.
+
+  Notation run_st := (Simplify.run_st C c0 c1 ctwo cpi cnan copp cfun cop is_zero is_one ceqb).
+  Notation run := (Simplify.run C c0 c1 ctwo cpi cnan copp cfun cop is_zero is_one ceqb).
+
+  Lemma run_rw : forall e, rw (hits (snd (run_st e))) e (run e).
+  Proof.
+    intro e. unfold Simplify.run, Simplify.run_st.
+    destruct (simplify LIMIT (st_empty C) e) as [r s'] eqn:E.
+    destruct (simplify_ok LIMIT _ _ _ _ E) as (Hr & _ & _).
+    - intros k v Hin. destruct Hin.
+    - exact Hr.
+  Qed.
+
+  (** The excluded class, decidably: some exponent on which [0^x -> 0] fired evaluates to 0. *)
+  Definition evals_to_zero (x : ex) : bool :=
+    match ev x with Some v => if c_eq_dec v c0 then true else false | None => false end.
+  Definition Known_zero_pow (e : ex) : bool := existsb evals_to_zero (hits (snd (run_st e))).
+
+  Lemma known_false_no_bad e : Known_zero_pow e = false -> no_bad (hits (snd (run_st e))).
+  Proof.
+    unfold Known_zero_pow. intros H x Hin Hx.
+    assert (Hex : existsb evals_to_zero (hits (snd (run_st e))) = true).
+    { apply existsb_exists. exists x. split; [exact Hin |].
+      unfold evals_to_zero. rewrite Hx. destruct (c_eq_dec c0 c0); congruence. }
+    congruence.
+  Qed.
+
+  Theorem simplify_preserves_value :
+    forall e v, ev e = Some v -> Known_zero_pow e = false -> ev (run e) = Some v.
+  Proof.
+    intros e v Hv Hk. exact (rw_pres _ _ _ (run_rw e) (known_false_no_bad e Hk) v Hv).
+  Qed.
+
+  Theorem simplify_no_new_names :
+    forall e, incl (vars (run e)) (vars e) /\ incl (addrs (run e)) (addrs e).
+  Proof. intro e. exact (rw_sub _ _ _ (run_rw e)). Qed.
+
+  (** * Part 3: pi.  [simplify] replaces the symbol pi by a number wherever the limit lets it
+      look; the claimed invariant "never returns PiConstant" holds for inputs of depth <= LIMIT
+      (and fails beyond: see C12_no_pi_refuted). *)
+  Definition cache_pf (s : st) : Prop := forall k v, In (k, v) (cache s) -> has_pi v = false.
+  Definition simp_pf (f : simp) : Prop :=
+    forall s e r s', f s e = (r, s') -> cache_ok s -> cache_pf s -> has_pi e = false ->
+      has_pi r = false /\ cache_pf s'.
+  Definition simp_pfd (n : nat) (f : simp) : Prop :=
+    forall s e r s', f s e = (r, s') -> cache_ok s -> cache_pf s ->
+      (depth e <= n)%nat \/ has_pi e = false ->
+      has_pi r = false /\ cache_pf s'.
+  Definition rule_pf (R : rule) : Prop :=
+    forall rec s l o r res s', simp_ok rec -> simp_pf rec -> R rec s l o r = Some (res, s') ->
+      cache_ok s -> cache_pf s -> has_pi l = false -> has_pi r = false -> cache_pf s'.
+
+  Lemma simp_pfd_pf n f : simp_pfd n f -> simp_pf f.
+  Proof. intros H s e r s' E Hc Hp Hq. eapply H; eauto. Qed.
+
+  Ltac pf_split :=
+    repeat match goal with
+      | H : has_pi (_ _) = false |- _ => progress (cbn [has_pi] in H)
+      | H : _ || _ = false |- _ => apply orb_false_iff in H; destruct H
+      end.
+  Ltac pf_solve :=
+    cbn [has_pi];
+    repeat match goal with
+      | H : has_pi ?x = false |- context [has_pi ?x] => rewrite H
+      end;
+    reflexivity.
+  Ltac use_recs_pf Hrec Hpf :=
+    repeat match goal with
+      | E : ?rec ?s ?e = (?r, ?s1), Hc : cache_ok ?s, Hp : cache_pf ?s |- _ =>
+          lazymatch goal with
+          | _ : rw (hits s1) e r |- _ => fail
+          | _ =>
+              let Hr := fresh "Hr" in
+              let Hc' := fresh "Hc" in
+              let Hi := fresh "Hi" in
+              let Hq := fresh "Hq" in
+              let Hq' := fresh "Hq" in
+              let Hp' := fresh "Hp" in
+              destruct (Hrec _ _ _ _ E Hc) as (Hr & Hc' & Hi);
+              assert (Hq : has_pi e = false) by pf_solve;
+              destruct (Hpf _ _ _ _ E Hc Hp Hq) as (Hq' & Hp')
+          end
+      end.
+  Ltac rule_pf_tac :=
+    let Hpf := fresh "Hpf" in
+    let Hp := fresh "Hp" in
+    let Hl := fresh "Hl" in
+    let Hr := fresh "Hr" in
+    intros rec s l o r res s' Hrec Hpf H Hc Hp Hl Hr;
+    revert Hpf Hp Hl Hr; revert rec s l o r res s' Hrec H Hc;
+    rule_start; intros Hpf Hp Hl Hr;
+    try match goal with H : (_, _) = (_, _) |- _ => injection H as ? ?; subst end;
+    pf_split; use_recs_pf Hrec Hpf; solve [ assumption | cbn [cache]; assumption ].
+
+  Lemma infix_rules_pf : Forall rule_pf infix_rules.
+  Proof.
+    unfold Simplify.infix_rules.
+    repeat (apply Forall_cons; [|]); try apply Forall_nil.
+    all: unfold r_add_zero_l, r_add_zero_r, r_sub_zero_l, r_sub_zero_r, r_sub_self, r_mul_zero,
+      r_mul_one_l, r_mul_one_r, r_div_zero_l, r_div_zero_r, r_div_one_r, r_div_self, r_pow_zero_l,
+      r_pow_zero_r, r_pow_one_l, r_pow_one_r, r_fold, r_add_neg_r, r_add_neg_l, r_sub_neg_r,
+      r_sub_neg_l, r_muldiv_neg_neg, r_div_neg_self_r, r_div_neg_self_l, r_muldiv_neg_r,
+      r_muldiv_neg_l, r_affine_full, r_affine_coeffs, r_affine_consts, r_assoc_r, r_unassoc_r,
+      r_assoc_l, r_distrib_r, r_distrib_l, r_mul_div_cancel_l, r_div_mul_cancel_r,
+      r_mul_in_div_l, r_mul_in_div_r, r_div_mul_cancel_l, r_mul_div_cancel_r,
+      e_add, e_sub, e_mul, e_div, e_neg, inverse_op.
+    all: rule_pf_tac.
+  Qed.
+
+  Lemma first_rule_pf :
+    forall rules, Forall rule_ok rules -> Forall rule_pf rules ->
+    forall rec s l o r res s', simp_ok rec -> simp_pf rec ->
+      first_rule C rules rec s l o r = (res, s') -> cache_ok s -> cache_pf s ->
+      has_pi l = false -> has_pi r = false ->
+      has_pi res = false /\ cache_pf s'.
+  Proof.
+    intros rules Hok. induction Hok as [|R rules HR Hrules IH];
+      intros Hpfs rec s l o r res s' Hrec Hpf H Hc Hp Hl Hr; cbn [first_rule] in H.
+    - injection H as <- <-. split; [cbn [has_pi]; rewrite Hl, Hr; reflexivity | exact Hp].
+    - inversion Hpfs as [|R' rules' HRpf Hrules_pf]; subst.
+      destruct (R rec s l o r) as [[res0 s0]|] eqn:E.
+      + injection H as <- <-. split.
+        * destruct (HR _ _ _ _ _ _ _ Hrec E Hc) as (Hrw & _ & _).
+          apply (rw_pf _ _ _ Hrw). cbn [has_pi]. rewrite Hl, Hr. reflexivity.
+        * eapply HRpf; eassumption.
+      + eapply IH; eassumption.
+  Qed.
+
+  Lemma with_cache_pfd n body : simp_ok body -> simp_pfd n body ->
+                                simp_pfd n (Simplify.with_cache C ceqb body).
+  Proof.
+    intros Hok Hb s e r s' H Hc Hp Hd. unfold Simplify.with_cache in H.
+    destruct (Simplify.lookup C ceqb (cache s) e) as [r0|] eqn:El.
+    - injection H as <- <-. split; [| exact Hp]. eapply Hp, lookup_sound, El.
+    - destruct (body s e) as [r1 s1] eqn:Eb. injection H as <- <-.
+      destruct (Hb _ _ _ _ Eb Hc Hp Hd) as (Hq & Hp1). split; [exact Hq |].
+      intros k v Hin. cbn [cache] in Hin. destruct Hin as [Hin|Hin].
+      + injection Hin as <- <-. exact Hq.
+      + eapply Hp1. exact Hin.
+  Qed.
+
+  Lemma body_zero_pfd : simp_pfd 0 (Simplify.body_zero C cpi).
+  Proof.
+    intros s e r s' H Hc Hp Hd. unfold Simplify.body_zero in H.
+    destruct e; injection H as <- <-; (split; [| exact Hp]); try reflexivity;
+      destruct Hd as [Hd|Hd]; try exact Hd; cbn [depth] in Hd; lia.
+  Qed.
+
+  Lemma depth_or_pf_fn n f (a : ex) :
+    (depth (Fn f a) <= S n)%nat \/ has_pi (Fn f a) = false -> (depth a <= n)%nat \/ has_pi a = false.
+  Proof. cbn [depth has_pi]. intros [H|H]; [left; lia | right; exact H]. Qed.
+  Lemma depth_or_pf_prefix n o (a : ex) :
+    (depth (Prefix o a) <= S n)%nat \/ has_pi (Prefix o a) = false ->
+    (depth a <= n)%nat \/ has_pi a = false.
+  Proof. cbn [depth has_pi]. intros [H|H]; [left; lia | right; exact H]. Qed.
+  Lemma depth_or_pf_infix n o (a b : ex) :
+    (depth (Infix a o b) <= S n)%nat \/ has_pi (Infix a o b) = false ->
+    ((depth a <= n)%nat \/ has_pi a = false) /\ ((depth b <= n)%nat \/ has_pi b = false).
+  Proof.
+    cbn [depth has_pi]. intros [H|H]; [split; left; lia |].
+    apply orb_false_iff in H. destruct H. split; right; assumption.
+  Qed.
+
+  Lemma body_pos_pfd n rec0 rec1 :
+    simp_ok rec0 -> simp_ok rec1 -> simp_pfd n rec0 -> simp_pf rec1 ->
+    simp_pfd (S n)
+      (Simplify.body_pos C c0 c1 ctwo cpi cnan copp cfun cop is_zero is_one ceqb rec0 rec1).
+  Proof.
+    intros H0 H1 P0 P1 s e r s' H Hc Hp Hd. unfold Simplify.body_pos in H.
+    destruct e as [c | | x | nm i | f a | o a | l o rr].
+    - injection H as <- <-. split; [reflexivity | exact Hp].
+    - injection H as <- <-. split; [reflexivity | exact Hp].
+    - injection H as <- <-. split; [reflexivity | exact Hp].
+    - injection H as <- <-. split; [reflexivity | exact Hp].
+    - unfold Simplify.simplify_function_call in H.
+      destruct (rec0 s a) as [a' s1] eqn:E1.
+      destruct (P0 _ _ _ _ E1 Hc Hp (depth_or_pf_fn _ _ _ Hd)) as (Hq & Hp1).
+      destruct a'; injection H as <- <-; (split; [| exact Hp1]); try reflexivity; exact Hq.
+    - unfold Simplify.simplify_prefix, e_neg in H.
+      destruct (rec0 s a) as [a' s1] eqn:E1.
+      destruct (P0 _ _ _ _ E1 Hc Hp (depth_or_pf_prefix _ _ _ Hd)) as (Hq & Hp1).
+      destruct o.
+      + injection H as <- <-. split; assumption.
+      + destruct a' as [c | | x | nm i | f a' | [|] a' | l' o' r'];
+          injection H as <- <-; (split; [| exact Hp1]); try reflexivity; exact Hq.
+    - unfold Simplify.simplify_infix in H.
+      destruct (depth_or_pf_infix _ _ _ _ Hd) as (Hdl & Hdr).
+      destruct (rec0 s l) as [l' s1] eqn:E1. destruct (rec0 s1 rr) as [r' s2] eqn:E2.
+      destruct (H0 _ _ _ _ E1 Hc) as (_ & Hc1 & _).
+      destruct (P0 _ _ _ _ E1 Hc Hp Hdl) as (Hql & Hp1).
+      destruct (H0 _ _ _ _ E2 Hc1) as (_ & Hc2 & _).
+      destruct (P0 _ _ _ _ E2 Hc1 Hp1 Hdr) as (Hqr & Hp2).
+      exact (first_rule_pf _ infix_rules_ok infix_rules_pf _ _ _ _ _ _ _ H1 P1 H Hc2 Hp2 Hql Hqr).
+  Qed.
+
+  Lemma simplify_pfd_pair : forall n, simp_pfd n (simplify n) /\ simp_pfd (S n) (simplify (S n)).
+  Proof.
+    induction n as [|n [IH0 IH1]].
+    - assert (H0 : simp_pfd 0 (simplify 0)).
+      { apply with_cache_pfd; [apply body_zero_ok | apply body_zero_pfd]. }
+      split; [exact H0 |]. cbn [Simplify.simplify].
+      apply with_cache_pfd.
+      + apply body_pos_ok; apply (simplify_ok 0).
+      + apply body_pos_pfd; try apply (simplify_ok 0); [exact H0 | eapply simp_pfd_pf; exact H0].
+    - split; [exact IH1 |].
+      change (simp_pfd (S (S n)) (Simplify.with_cache C ceqb
+                (Simplify.body_pos C c0 c1 ctwo cpi cnan copp cfun cop is_zero is_one ceqb
+                   (simplify (S n)) (simplify n)))).
+      apply with_cache_pfd.
+      + apply body_pos_ok; apply simplify_ok.
+      + apply body_pos_pfd; try apply simplify_ok; [exact IH1 | eapply simp_pfd_pf; exact IH0].
+  Qed.
+
+  Theorem simplify_pi_free :
+    forall e, (depth e <= LIMIT)%nat -> has_pi (run e) = false.
+  Proof.
+    intros e Hd. unfold Simplify.run, Simplify.run_st.
+    destruct (simplify LIMIT (st_empty C) e) as [r s'] eqn:E. cbn [fst].
+    destruct (proj1 (simplify_pfd_pair LIMIT) _ _ _ _ E) as (Hq & _).
+    - intros k v Hin. destruct Hin.
+    - intros k v Hin. destruct Hin.
+    - left. exact Hd.
+    - exact Hq.
   Qed.
 End SimplifySound.
+
+(** * Packaging: a "field model" is a carrier with the operations the simplifier and the evaluator
+    use and the laws the proofs need.  The theorems of C12 quantify over all of them. *)
+Record field_model : Type := {
+  fm_C : Type;
+  fm_0 : fm_C; fm_1 : fm_C;
+  fm_add : fm_C -> fm_C -> fm_C; fm_mul : fm_C -> fm_C -> fm_C; fm_sub : fm_C -> fm_C -> fm_C;
+  fm_opp : fm_C -> fm_C; fm_div : fm_C -> fm_C -> fm_C; fm_inv : fm_C -> fm_C;
+  fm_field : field_theory fm_0 fm_1 fm_add fm_mul fm_sub fm_opp fm_div fm_inv (@eq fm_C);
+  fm_eq_dec : forall x y : fm_C, {x = y} + {x <> y};
+  fm_pi : fm_C; fm_nan : fm_C;
+  fm_fun : efn -> fm_C -> fm_C;
+  fm_ppow : fm_C -> fm_C -> option fm_C;
+  fm_cop : infix_op -> fm_C -> fm_C -> fm_C;
+  fm_is_zero : fm_C -> bool; fm_is_one : fm_C -> bool;
+  fm_ceqb : fm_C -> fm_C -> bool;
+  fm_is_zero_sound : forall x, fm_is_zero x = true -> x = fm_0;
+  fm_is_one_sound : forall x, fm_is_one x = true -> x = fm_1;
+  fm_ceqb_sound : forall x y, fm_ceqb x y = true -> x = y;
+  fm_cop_sound : forall o x y v,
+      pinfix fm_C fm_0 fm_add fm_mul fm_sub fm_div fm_eq_dec fm_ppow o x y = Some v -> fm_cop o x y = v;
+  fm_pow_zero_r : forall x v, fm_ppow x fm_0 = Some v -> v = fm_1;
+  fm_pow_one_r : forall x v, fm_ppow x fm_1 = Some v -> v = x;
+  fm_pow_one_l : forall y v, fm_ppow fm_1 y = Some v -> v = fm_1;
+  fm_pow_zero_l : forall y v, fm_ppow fm_0 y = Some v -> y <> fm_0 -> v = fm_0;
+}.
+
+(** Evaluation in a field model (memory cells are values of the carrier). *)
+Definition fm_alg (F : field_model) : alg (fm_C F) (fm_C F) (fm_C F) :=
+  FA (fm_C F) (fm_0 F) (fm_add F) (fm_mul F) (fm_sub F) (fm_opp F) (fm_div F) (fm_eq_dec F)
+     (fm_pi F) (fm_fun F) (fm_ppow F) (fm_C F) (fun m => m).
+Definition fm_eval (F : field_model) rv rm (e : expr (fm_C F)) : option (fm_C F) :=
+  eval (fm_alg F) rv rm e.
+
+(** The simplifier in a field model: [simplification::run]. *)
+Definition fm_run_st (F : field_model) (e : expr (fm_C F)) :=
+  run_st (fm_C F) (fm_0 F) (fm_1 F) (fm_add F (fm_1 F) (fm_1 F)) (fm_pi F) (fm_nan F) (fm_opp F)
+         (fm_fun F) (fm_cop F) (fm_is_zero F) (fm_is_one F) (fm_ceqb F) e.
+Definition fm_run (F : field_model) (e : expr (fm_C F)) : expr (fm_C F) := fst (fm_run_st F e).
+
+(** The excluded class (known finding zero-base-power): an exponent on which the arm
+    [0^x -> 0] fired evaluates to 0 under the assignment. *)
+Definition fm_known_zero_pow (F : field_model) rv rm (e : expr (fm_C F)) : bool :=
+  existsb (fun x => match fm_eval F rv rm x with
+                    | Some v => if fm_eq_dec F v (fm_0 F) then true else false
+                    | None => false
+                    end)
+          (hits (snd (fm_run_st F e))).
+
+Lemma fm_value :
+  forall (F : field_model) rv rm (e : expr (fm_C F)) (v : fm_C F),
+    fm_eval F rv rm e = Some v -> fm_known_zero_pow F rv rm e = false ->
+    fm_eval F rv rm (fm_run F e) = Some v.
+Proof.
+  intros F rv rm e v Hv Hk.
+  exact (simplify_preserves_value (fm_C F) (fm_0 F) (fm_1 F) (fm_add F) (fm_mul F) (fm_sub F)
+           (fm_opp F) (fm_div F) (fm_inv F) (fm_field F) (fm_eq_dec F) (fm_pi F) (fm_nan F)
+           (fm_fun F) (fm_ppow F) (fm_cop F) (fm_is_zero F) (fm_is_one F) (fm_ceqb F) (fm_C F)
+           (fun m => m) (fm_is_zero_sound F) (fm_is_one_sound F) (fm_ceqb_sound F) (fm_cop_sound F)
+           (fm_pow_zero_r F) (fm_pow_one_r F) (fm_pow_one_l F) (fm_pow_zero_l F) rv rm e v Hv Hk).
+Qed.
+
+Lemma fm_names :
+  forall (F : field_model) (e : expr (fm_C F)),
+    incl (vars (fm_run F e)) (vars e) /\ incl (addrs (fm_run F e)) (addrs e).
+Proof.
+  intros F e.
+  exact (simplify_no_new_names (fm_C F) (fm_0 F) (fm_1 F) (fm_add F) (fm_opp F) (fm_pi F) (fm_nan F)
+           (fm_fun F) (fm_cop F) (fm_is_zero F) (fm_is_one F) (fm_ceqb F) (fm_C F) (fm_ceqb_sound F)
+           (fun _ => None) (fun _ => None) e).
+Qed.
+
+Lemma fm_pi_free :
+  forall (F : field_model) (e : expr (fm_C F)),
+    (depth e <= LIMIT)%nat -> has_pi (fm_run F e) = false.
+Proof.
+  intros F e.
+  exact (simplify_pi_free (fm_C F) (fm_0 F) (fm_1 F) (fm_add F) (fm_opp F) (fm_pi F) (fm_nan F)
+           (fm_fun F) (fm_cop F) (fm_is_zero F) (fm_is_one F) (fm_ceqb F) (fm_ceqb_sound F) e).
+Qed.
